@@ -456,18 +456,23 @@ def py_rules(ck, table):
     tests = [t for t in cfg.stmt_nodes(lambda n: n.kind == "test") if isinstance(t.ast, ast.Compare) and q.is_call(t.ast.left, "len") and q.dotted(t.ast.left.args[0]) == mp]
     ck.ob(R, ref, ref.node, len(tests) == 1, "the reference tests len(mask) once", construct="len(mask) tests: %d" % len(tests))
     for t in tests:
-        rej = q.truth_set(t.ast, mp, ["x" * n for n in range(0, 17)])
-        rej_n = sorted(len(x) for x in rej)
-        succ_true = [s_ for s_, k in cfg.successors(t) if k == "true"]
-        raises = bool(succ_true) and all(s_.kind == "stmt" and isinstance(s_.ast, ast.Raise) and "ValueError" in q.unparse(s_.ast) for s_ in succ_true)
-        ck.ob(R, ref, t.ast, raises and rej_n == [n for n in range(17) if n != 4], "mask lengths 0..16: exactly the lengths != 4 raise ValueError (rejected %s)" % rej_n)
+        truth = {len(x) for x in q.truth_set(t.ast, mp, ["x" * n for n in range(0, 17)])}
+        rk = None
+        for kind_ in ("true", "false"):
+            succ = [s_ for s_, k in cfg.successors(t) if k == kind_]
+            if succ and all(s_.kind == "stmt" and isinstance(s_.ast, ast.Raise) and "ValueError" in q.unparse(s_.ast) for s_ in succ):
+                rk = kind_
+        rej_n = sorted(truth if rk == "true" else (set(range(17)) - truth)) if rk else []
+        ck.ob(R, ref, t.ast, rk is not None and rej_n == [n for n in range(17) if n != 4], "mask lengths 0..16: exactly the lengths != 4 raise ValueError (rejected %s)" % rej_n,
+              construct="reference rejects %s" % rej_n)
+        ok_kind = "false" if rk == "true" else "true"
         # everything else only via the accepting edge
         seen = {cfg.entry.id}
         stack = [cfg.entry.id]
         while stack:
             x = stack.pop()
             for y, k in cfg.succ[x]:
-                if (x == t.id and k == "false") or y in seen:
+                if (x == t.id and k == ok_kind) or y in seen:
                     continue
                 seen.add(y)
                 stack.append(y)
